@@ -26,6 +26,9 @@ JOBS = [
       note="bounded: at most 2 interfering pushes by other threads per call, hence at most 3 CAS retries; single popper (rely)"),
   Job("c06.stack.init", "c06_stack.c", "h_stack_init", fuc=["myth_sleep_stack_init"], timeout=100),
 ]
+# the public API functions are one-line forwarders to the bodies under contract: checked mechanically (DESIGN §3.5b)
+from units.common_forward import forward_job
+JOBS = list(JOBS) + [forward_job("c06")]
 META = {
  "level": "proof",
  "level_text": "Rely/guarantee contract on the real barrier_wait body for every N < 2^31 and every interference on the counter: one arrival per call, the serial indicator exactly for ticket N-1, reset before release, everybody else blocks once; the block path by call-protocol contracts. wake_many_from_stack and the Treiber-stack steps are bounded stand-ins and are not counted as proved.",
